@@ -5,6 +5,7 @@ feasible path of the function under its precondition, `pc /\\ not clause` is
 unsatisfiable.  Safety ("no exceptional exit") and frame ("no store to a
 pre-existing object") are obligations of every function.
 """
+import os
 import time
 import traceback
 import z3
@@ -30,7 +31,13 @@ def explore(world, setup, run, contracts=None, max_paths=MAX_PATHS, timeout_ms=4
     work = [[]]
     results = []
     stats = {"paths": 0, "aborted": 0, "checks": 0, "feas_unknown": 0}
+    t_start = time.time()
+    budget = float(os.environ.get("VERIF_UNIT_BUDGET_S", "900"))
     while work:
+        if time.time() - t_start > budget:
+            # a change of the code can blow up the number of paths of a unit: give up (exit 2), never hang
+            results.append(PathResult(None, None, "unsupported", Unsupported("exploration budget of %d s used up after %d paths" % (budget, stats["paths"]))))
+            break
         dec = work.pop()
         it = Interp(world, dec, timeout_ms=timeout_ms)
         if contracts:
